@@ -12,7 +12,7 @@ ASSUMPTIONS = ["data_page = 0 for the request frame's own PGN (SAE defines the R
 
 
 def correspondence(ctx):
-    return genca.correspondence(ctx, 400 if ctx.quick else 15000, 14)
+    return genca.correspondence(ctx, ctx.n(400, 15000), 14)
 
 
 def request_case(rng):
@@ -71,7 +71,7 @@ def request_case(rng):
 
 def oracle(ctx, full):
     rng = random.Random(ctx.seed * 7907 + 14)
-    n = 120 if (ctx.quick and not full) else 4000
+    n = ctx.n(120, 4000, full)
     findings, evals, distinct, samples = [], 0, set(), []
     for _ in range(n):
         bad, desc = request_case(random.Random(rng.getrandbits(48)))
